@@ -122,7 +122,7 @@ func C02(env *Env) {
 		rem2 := pat.Res("1", dec(2))
 		nul := pat.Slice(pat.Op(flow.OpArray, "", pat.Const("0")), "", "")
 		specs = append(specs, gateSpec{rule: "R3/pem", name: "trailing-bytes",
-			m:      pat.Op("implies", "", pat.Bin("!=", pat.Len(rem2), pat.Const("0")), pat.OneOf(pat.Call("bytes.Equal", rem2, nul), pat.Call("bytes.Equal", nul, rem2))),
+			m:      pat.Op("implies", "", pat.NonEmpty(rem2), pat.OneOf(pat.Call("bytes.Equal", rem2, nul), pat.Call("bytes.Equal", nul, rem2))),
 			expect: "after the third block: len(rest) != 0 implies bytes.Equal(rest, []byte{0})"})
 		// x509 path validation of the leaf
 		verifyOpts := func(t *flow.Term, b pat.Bind) bool {
